@@ -18,7 +18,7 @@ def cargo_env():
     env = dict(os.environ)
     env["CARGO_NET_OFFLINE"] = "true"
     env["CARGO_TARGET_DIR"] = TARGET
-    env["RUSTFLAGS"] = GUARD
+    env["RUSTFLAGS"] = GUARD + (" " + os.environ["MSCRIPT_VERIF_EXTRA_RUSTFLAGS"] if os.environ.get("MSCRIPT_VERIF_EXTRA_RUSTFLAGS") else "")
     env.pop("RUST_BACKTRACE", None)
     return env
 
